@@ -91,6 +91,31 @@ Theorem C04_reachable_state_ok : forall rs ss st' os,
 Proof. exact reachable_state_ok. Qed.
 Print Assumptions C04_reachable_state_ok.
 
+(* Blockchain.Get fetches and stores blocks it does not have.  The rules as the Go code runs
+   them (every Get threaded through the store, [net] = what the peers can supply) decide what
+   the pure rules above decide on the available blocks [f ++ net]; the store only grows by
+   fetched blocks, and the lock / committed block end up stored. *)
+Theorem C04_fetching_vote_is_pure_on_available : forall rs net f lock v p f' r,
+  vote_rule_io rs net f lock v p = (f', r) ->
+  r = vote_rule rs (f ++ net) lock v p /\ grows net f f'.
+Proof. exact vote_rule_io_pure. Qed.
+Print Assumptions C04_fetching_vote_is_pure_on_available.
+
+Theorem C04_fetching_commit_is_pure_on_available : forall rs net f lock blk f' lock' c,
+  commit_rule_io rs net f lock blk = (f', (lock', c)) ->
+  commit_rule rs (f ++ net) lock blk = (lock', c) /\ grows net f f' /\
+  (lock' = lock \/ In lock' f') /\ (forall b, c = Some b -> In b f').
+Proof. exact commit_rule_io_pure. Qed.
+Print Assumptions C04_fetching_commit_is_pure_on_available.
+
+(* along every run with fetching and a changing network: one block per hash, the lock is
+   stored, and its view never decreases *)
+Theorem C04_fetching_run_ok : forall rs ss st st' os,
+  nstate_ok st -> nrun rs st ss = (st', os) ->
+  nstate_ok st' /\ b_view (snd (fst st)) <= b_view (snd (fst st')).
+Proof. exact nrun_ok. Qed.
+Print Assumptions C04_fetching_run_ok.
+
 (* the simple-HotStuff commit rule as it stands WITHOUT the patch decides by certificate links
    and the total view gap only ... *)
 Theorem C04_simple_unpatched_characterised : forall f lock blk lock' c,
@@ -158,6 +183,12 @@ Example C04_nv_decisions :
   fast_vote nv_store 5 (mkProp (mkBlock 10 5 5 (mkQC 5 4)) None) = true /\
   fast_vote nv_store 5 (mkProp (mkBlock 10 5 6 (mkQC 5 4)) None) = false /\
   fast_vote nv_store 5 (mkProp (mkBlock 10 5 6 (mkQC 5 4)) (Some (mkAgg (mkQC 5 4) 5))) = true /\
+  (* the block the lock must move to (B3, certified by B4's QC) is missing: no vote; it is
+     fetched and stored when a peer has it *)
+  chained_vote [genesis; nv_b1; nv_b2; nv_b4] nv_b1 5 (mkProp (mkBlock 10 5 5 (mkQC 5 4)) None) = false /\
+  simple_vote [genesis; nv_b1; nv_b2; nv_b4] nv_b1 5 (mkProp (mkBlock 10 5 5 (mkQC 5 4)) None) = false /\
+  chained_vote_io [nv_b3] [genesis; nv_b1; nv_b2; nv_b4] nv_b1 5 (mkProp (mkBlock 10 5 5 (mkQC 5 4)) None)
+    = ([genesis; nv_b1; nv_b2; nv_b4; nv_b3], true) /\
   (* an AggQC from an older view justifies nothing *)
   fast_vote nv_store 5 (mkProp (mkBlock 10 5 7 (mkQC 5 4)) (Some (mkAgg (mkQC 5 4) 5))) = false.
 Proof. vm_compute. repeat split. Qed.
